@@ -164,7 +164,9 @@ func (t *tlog) commonSuffix(orig [][]byte, prefix int) int {
 	return n
 }
 
-func (t *tlog) bytesFrom(ser serialization.Serializer, from int) []byte { return t.bytesRange(ser, from, len(t.ch)) }
+func (t *tlog) bytesFrom(ser serialization.Serializer, from int) []byte {
+	return t.bytesRange(ser, from, len(t.ch))
+}
 
 func (t *tlog) bytesRange(ser serialization.Serializer, from, to int) []byte {
 	var b bytes.Buffer
@@ -458,6 +460,7 @@ func snapshots(data []byte, ser serialization.Serializer, k *keys) []vsnap {
 //     Validator, after accepting the nmid entries of mid, is exactly in the state it has at that
 //     point of the untampered log (same index, previous hash and hash buffer), the rest is accepted
 //     as it was before.  nmid < 0 disables this (byte-level cases, where framing may be broken).
+//
 // tool.Verify on the whole file is run for every accepted log (thorough; a sample in quick) and a
 // sample of the rejected ones, and must agree.
 func verifyStream(mid io.Reader, tail []byte, nmid int, from, join vsnap, ser serialization.Serializer, k *keys) (v verdict) {
